@@ -19,7 +19,8 @@ static Json::Value strs(const std::vector<std::string>& v) {
 // (fs root, relative path): same absolute path, same parts, equal, same hash
 static bool canonical(const CgroupPath& q) {
   CgroupPath fresh(q.cgroupFs(), q.relativePath());
-  return fresh.absolutePath() == q.absolutePath() && fresh.relativePathParts() == q.relativePathParts() && fresh == q &&
+  return fresh.absolutePath() == q.absolutePath() && fresh.relativePath() == q.relativePath() &&
+      fresh.relativePathParts() == q.relativePathParts() && fresh.cgroupFs() == q.cgroupFs() && fresh == q &&
       !(fresh != q) && std::hash<CgroupPath>()(fresh) == std::hash<CgroupPath>()(q) && fresh.isRoot() == q.isRoot();
 }
 
@@ -40,6 +41,7 @@ static void doPath(const Json::Value& sc, Json::Value& out) {
   }
   CgroupPath ch = p.getChild(sc["child"].asString());
   out["child_canon"] = canonical(ch);
+  out["child_rel"] = ch.relativePath();
   out["child_parts"] = strs(ch.relativePathParts());
   out["child_abs"] = ch.absolutePath();
   // re-parse the relative path under the same fs root
